@@ -347,6 +347,12 @@ func (p *queryPlan) processClause(ctx context.Context, cls *semantic.GraphClause
 				// graph holds the triple, and none of them otherwise.
 				return b, nil
 			}
+			if b && cls.Optional {
+				// Nothing is bound yet and the optional clause is not satisfied: the
+				// only (empty) solution found so far is kept, its aliases are <NULL>.
+				tbl.AddRow(nullRow(tbl.Bindings()))
+				b = false
+			}
 			if err := p.tbl.AppendTable(tbl); err != nil {
 				return b, err
 			}
@@ -389,6 +395,12 @@ func (p *queryPlan) processClause(ctx context.Context, cls *semantic.GraphClause
 			}
 			return false, p.tbl.DotProduct(tbl)
 		}
+		if cls.Optional && tbl.NumRows() == 0 {
+			// Nothing is bound yet (only fully specified clauses came before) and
+			// the optional clause matches nothing: the only (empty) solution found
+			// so far is kept, the bindings of the clause are <NULL>.
+			tbl.AddRow(nullRow(tbl.Bindings()))
+		}
 		return false, p.tbl.AppendTable(tbl)
 	}
 
@@ -428,6 +440,15 @@ func (p *queryPlan) limitToPushDown(cls *semantic.GraphClause) int64 {
 		return 0
 	}
 	return p.stm.Limit()
+}
+
+// nullRow returns a row with an empty cell (<NULL>) for each of the bindings.
+func nullRow(bs []string) table.Row {
+	r := make(table.Row)
+	for _, b := range bs {
+		r[b] = &table.Cell{}
+	}
+	return r
 }
 
 // getBoundValueForComponent return the unique bound value if available on
